@@ -10,6 +10,8 @@
         → hyp=<b> model=<merged ids> (pieces given in `_piece_locations` order; -1 = never written)
   c06pv <isPoint> <k> { b0 e0 b1 e1 b2 e2 }*k { <nrows> id … }*k
         → sizes=<a,b|c|d> meshed=<dirs> locs=<..;..> model=<merged ids>
+  c06pr <k> { 6 extent ints }*k { <n> x… <n> y… <n> z… }*k
+        → model=<x ordinates|y ordinates|z ordinates> or model=E (the reader raises)
 -/
 import Driver.ProtoMesh
 import FcModel.Spec.C06
@@ -86,12 +88,23 @@ def opC06pv : P String := do
   let locs := ";".intercalate (sd.pieceLocations.map showNats)
   pure s!"sizes={sizes} meshed={showNats sd.meshedDimensions} locs={locs} model={showInts (pvtkMergeField isPoint extents vals (-1))}"
 
+/-- `c06pr <k> { b0 e0 b1 e1 b2 e2 }*k { <n0> x… <n1> y… <n2> z… }*k` → ordinates of the merged grid -/
+def opC06pr : P String := do
+  let k ← pNat
+  let extents ← pMany (pMany pInt 6) k
+  let ords ← pMany (pMany (pList pInt) 3) k
+  let sd := structuredDecomposition extents
+  match pvtrOrdinates sd ords with
+  | some o => pure s!"model={"|".intercalate (o.map showInts)}"
+  | none => pure "model=E"
+
 def handleC06 (op : String) : Option (P String) :=
   match op with
   | "c06u" => some opC06u
   | "c06s" => some opC06s
   | "c06sm" => some opC06sm
   | "c06pv" => some opC06pv
+  | "c06pr" => some opC06pr
   | _ => none
 
 end Fc.Drv
